@@ -262,6 +262,18 @@ def gen_cases(rng, tier):
             c = [[a, 0.0], [0.0, d]]                                    # axis aligned (either order)
         elif mode == 4:
             c = psd(rng, 2, cond=rng.choice([1e8, 1e7, 1 + 1e-6, 1 + 1e-3]))
+        elif mode in (5, 6):
+            # entries tied by an equality a 'fast path' would test: EQUAL (mode 5) or equal-to-rounding (mode 6) variances with a
+            # non-zero correlation — principal axes at exactly / nearly +-45 degrees, a set of measure zero under psd() (seeded change
+            # c11f: 'circle' shortcut on isApproximatelyEqual(cxx, cyy) that never looks at cxy); also /cxy/ = cxx (rank one) and
+            # the mirrored case cxx = -cxy
+            a = rng.choice([1.0, 2.0, 41.0, rng.loguniform(1e-4, 1e4)])
+            r = rng.choice([0.5, -0.5, 1.0, -1.0, 40.0 / 41.0, rng.uniform(-1.0, 1.0), rng.uniform(-1.0, 1.0) * 1e-3])
+            d = a if mode == 5 else a * (1.0 + rng.choice([1.0, -1.0]) * rng.choice([2.3e-16, 1e-15, 1e-12, 1e-9, 1e-6]))
+            if mode == 6 and abs(r) >= 1.0:
+                r *= 0.5                                                # stay inside the quantifier: cond < 1e8 or exactly rank-deficient
+            b = r * min(a, d)
+            c = [[a, b], [b, d]]
         else:
             c = psd(rng, 2)
         sigma = rng.choice([10.0, 1.0, 3.0, rng.uniform(1e-3, 10.0), rng.loguniform(1e-3, 10.0)])
